@@ -237,7 +237,7 @@ def do_upload_setup(rig, c, index, sub):
         setattr(srv, k, v)
     if c["path"] == "upload-declared":
         # an entry the OD declares as a fixed-size number: the server may hold more bytes than declared
-        dts = [dt for dt in R.NUMERIC]
+        dts = [dt for dt in R.NUMERIC] + [R.BOOLEAN]
         dt = dts[c["seed"] % len(dts)]
         index, sub = gen.TYPE_INDEX_BASE + dt, 0
         c["mux"] = [index, sub]
